@@ -66,12 +66,13 @@ type Client struct {
 	OnRead func(n int)
 	pauseC *sync.Cond
 
-	wmu    sync.Mutex
-	wcond  *sync.Cond
-	wq     [][]byte
-	wdone  bool
-	werr   error
-	wcount int64
+	wmu     sync.Mutex
+	wcond   *sync.Cond
+	wq      [][]byte
+	writing bool // the writer has taken an item off the queue and is inside conn.Write
+	wdone   bool
+	werr    error
+	wcount  int64
 
 	wg sync.WaitGroup
 }
@@ -207,9 +208,11 @@ func (c *Client) writer() {
 		}
 		b := c.wq[0]
 		c.wq = c.wq[1:]
+		c.writing = true
 		c.wmu.Unlock()
 		_, err := c.conn.Write(b)
 		c.wmu.Lock()
+		c.writing = false
 		c.wcount++
 		if err != nil && c.werr == nil {
 			c.werr = err
@@ -239,11 +242,12 @@ func (c *Client) Send(b []byte) {
 // SendPacket queues the encoding of p.
 func (c *Client) SendPacket(p *rc.Packet) { c.Send(rc.Encode(p)) }
 
-// Flush waits until the write queue is empty (or the writer stopped).
+// Flush waits until everything queued has been written to the connection (or the
+// writer stopped): the queue is empty and no write is in progress.
 func (c *Client) Flush() error {
 	c.wmu.Lock()
 	defer c.wmu.Unlock()
-	for len(c.wq) > 0 && !c.wdone {
+	for (len(c.wq) > 0 || c.writing) && !c.wdone {
 		c.wcond.Wait()
 	}
 	return c.werr
